@@ -49,11 +49,13 @@ EXTENDS Naturals, Sequences, FiniteSets, TLC
 CONSTANTS RichSteps,     \* > 0: enumerate every single-call script over every method whose body has <= RichSteps steps of the rich step alphabet
           SmallSteps,    \* > 0: the same with the small step alphabet (deeper bodies)
           MultiCalls,    \* > 0: every script of <= MultiCalls calls over a few call descriptors (cross-call effects)
+          LongEmits,     \* > 0: producers that emit 4..LongEmits batches before their terminal step (room for every packing)
           MaxTicks       \* tick operations before the leaving operation
 \* slice = <<alphabet, calls per script, steps per stream method body, MaxTicks>>; all bounds <= 3
 Slices == (IF RichSteps > 0 THEN {<<"rich", 1, RichSteps, MaxTicks>>} ELSE {})
           \cup (IF SmallSteps > 0 THEN {<<"small", 1, SmallSteps, MaxTicks>>} ELSE {})
           \cup (IF MultiCalls > 0 THEN {<<"multi", MultiCalls, 2, MaxTicks>>} ELSE {})
+          \cup (IF LongEmits > 0 THEN {<<"long", 1, LongEmits, MaxTicks>>} ELSE {})
 
 \* ------------------------------------------------------------------------------------------ sequences
 RECURSIVE SeqsUpTo(_, _)
@@ -172,13 +174,26 @@ MultiDescs == {
   Desc(Meth("exch", F1, "ok", "", "na", <<>>), <<"t", "t", "c">>),
   Desc(Meth("exch", F2, "ok", "", "na", <<Plain, St(<<>>, "none", <<>>, "raise", "AppError")>>), <<"t", "t", "c">>) }
 
+\* the long slice: producers with k = 4..LongEmits emitting steps (all plain, all with metadata, or alternating, the
+\* second one logging) and then a terminal step; consumed to the end, or partly by ticks
+LongPrefix(k, pat) == [i \in 1..k |-> IF pat = "plain" THEN Plain
+                                      ELSE IF pat = "meta" THEN St(<<>>, "meta", <<>>, "cont", "")
+                                      ELSE IF i % 2 = 0 THEN St(<<"INFO">>, "meta", <<"WARN">>, "cont", "") ELSE Plain]
+LongTerminals == {St(<<>>, "none", <<>>, "raise", "ValueError"), St(<<"INFO">>, "none", <<>>, "raise", "AppError"),
+                  Fin, St(<<"DEBUG">>, "plain", <<>>, "finish", ""), St(<<>>, "none", <<>>, "cont", "")}
+LongDescs(maxEmits) ==
+  {Desc(Meth("prod", f, "ok", "", "na", LongPrefix(k, pat) \o <<t>>), o) :
+     k \in 4..maxEmits, pat \in {"plain", "meta", "mixed"}, t \in LongTerminals, f \in {F1, F2},
+     o \in {<<"i">>, <<"t", "i">>, <<"t", "t", "t", "c">>}}
+
 \* slice = <<alphabet, MaxCalls, MaxSteps, MaxTicks>>
-Descs(sl) == IF sl[1] = "multi" THEN MultiDescs ELSE AllDescs(sl[1], sl[3], sl[4])
+Descs(sl) == IF sl[1] = "multi" THEN MultiDescs ELSE IF sl[1] = "long" THEN LongDescs(sl[3]) ELSE AllDescs(sl[1], sl[3], sl[4])
 Scripts(sl) == SeqsUpTo(Descs(sl), sl[2]) \ {<<>>}
 \* a program is the set of distinct methods a script calls (at most MaxCalls <= 3 of them)
 Program(calls) == {calls[i].m : i \in 1..Len(calls)}
 Cases == UNION {{[calls |-> s] : s \in Scripts(sl)} : sl \in Slices}
-ASSUME \A sl \in Slices : sl[1] \in {"rich", "small", "multi"} /\ sl[2] \in 1..3 /\ sl[3] \in 1..3 /\ sl[4] \in 0..3
+ASSUME \A sl \in Slices : sl[1] \in {"rich", "small", "multi", "long"} /\ sl[2] \in 1..3 /\ sl[4] \in 0..3
+                         /\ (IF sl[1] = "long" THEN sl[3] \in 4..6 ELSE sl[3] \in 1..3)
 
 \* ------------------------------------------------------------------------------------------ configurations
 (* The property quantifies over transport configurations; the history above takes no configuration argument, which
@@ -195,7 +210,7 @@ ASSUME \A sl \in Slices : sl[1] \in {"rich", "small", "multi"} /\ sl[2] \in 1..3
      api       how an HTTP producer is consumed: iteration, or next_with_token() + resume_stream() on every batch
      cside     compression enabled on both sides / only on the server / only on the client                      *)
 SocketTransports == {"pipe", "unix", "tcp", "shm", "subprocess", "pool", "pool-reuse"}
-Caps == {"none", "tiny", "large"}
+Caps == {"none", "tiny", "large", "landmark"}      \* landmark: one cap per packing of the program (section "packing")
 Comps == {"off", "zstd", "gzip", "gzips"}        \* gzip: the client accepts only gzip; gzips: the server negotiates only gzip
 Exts == {"off", "low"}
 ConfigSpace == [sockets |-> SocketTransports, caps |-> Caps, comps |-> Comps, exts |-> Exts,
@@ -203,6 +218,24 @@ ConfigSpace == [sockets |-> SocketTransports, caps |-> Caps, comps |-> Comps, ex
                 sticky |-> BOOLEAN, cache |-> {"warm", "cold", "lb"}, level |-> {1, 3, 9},
                 extz |-> {"none", "zstd", "gzip"}, api |-> {"iter", "token"}, cside |-> {"both", "server", "client"}]
 
+\* ------------------------------------------------------------------------------------------ packing
+(* HTTP serves a producer in *turns*: /init runs process() until the response body reaches max_response_bytes, every
+   continuation request does the same.  Which steps share a response -- in particular which data batches share one
+   with the terminal event (the error batch, or the end of the stream) and whether that response is /init or a
+   continuation -- is decided by where the cap falls relative to the framed sizes of THIS program's batches, so a
+   fixed palette of caps reaches only a few packings.  The packing dimension: for a producer whose full run makes n
+   process() calls, packing j in 1..n means "the cap sits exactly at the framed size of the first j steps": /init serves
+   j steps, and every continuation is filled against the same budget.  Each landmark is used twice: cap = landmark (the
+   j-th step ends the turn) and landmark + 1 (one more step is squeezed in): boundaries exact.
+   The history does not depend on the packing; that is what the property says about max_response_bytes.            *)
+RunSteps(m) == IF m.steps # <<>> /\ (Last(m.steps).end # "cont" \/ Last(m.steps).emit = "none") THEN Len(m.steps)
+               ELSE Len(m.steps) + 1                       \* past the end of its script a producer finishes
+Packings(m) == IF m.kind = "prod" /\ m.iend = "ok" THEN 1..RunSteps(m) ELSE {}
+\* with equal step sizes the turns of packing j hold j, j, ..., r steps: where does the terminal (last) step land?
+LastTurn(n, j) == IF n <= j THEN n ELSE IF (n - j) % j = 0 THEN j ELSE (n - j) % j
+TerminalClass(n, j) == IF n <= j THEN (IF n = 1 THEN "init-alone" ELSE "init-with-data")
+                       ELSE IF LastTurn(n, j) = 1 THEN "cont-alone" ELSE "cont-with-data"
+PackingOf(call) == [j \in Packings(call.m) |-> TerminalClass(RunSteps(call.m), j)]
 \* ------------------------------------------------------------------------------------------ interpreter
 Intended == [lbr |-> TRUE, xdrop |-> {}]
 Devs == {Intended, [lbr |-> FALSE, xdrop |-> {}], [lbr |-> TRUE, xdrop |-> {1}], [lbr |-> TRUE, xdrop |-> {1, 2, 3}],
@@ -318,7 +351,11 @@ OneEnding(c, h) == \A i \in Calls(c) : LET e == h[i] IN
 DeviationsOnlyDropLogs(c, h) == \A i \in Calls(c) : LET a == h[i] IN \A d \in Devs \ {Intended} : LET b == ExpCall(c.calls[i], d) IN
                                 /\ a.data = b.data /\ a.err = b.err /\ a.res = b.res /\ a.hdr = b.hdr /\ a.stopped = b.stopped
                                 /\ IsSubseq(b.logs, a.logs) /\ IsSubseq(b.maylogs, a.maylogs)
-ProgramSmall(c, h) == Len(c.calls) <= 3 /\ Cardinality(Program(c.calls)) <= 3 /\ \A i \in Calls(c) : Len(c.calls[i].m.steps) <= 3
+ProgramSmall(c, h) == Len(c.calls) <= 3 /\ Cardinality(Program(c.calls)) <= 3 /\ \A i \in Calls(c) : Len(c.calls[i].m.steps) <= 7
+\* sanity: a producer with >= 4 emitting steps before its terminal step reaches every way the terminal event can be packed
+PackingCoverage(c, h) == \A i \in Calls(c) : LET m == c.calls[i].m IN
+                            (m.kind = "prod" /\ m.iend = "ok" /\ RunSteps(m) >= 5) =>
+                               {TerminalClass(RunSteps(m), j) : j \in Packings(m)} = {"init-with-data", "cont-alone", "cont-with-data"}
 
 \* ------------------------------------------------------------------------------------------ judging a real history
 (* o = [calls |-> <<oc...>>, ref |-> <<raw...>> or <<>>]; one oc per call of the script:
